@@ -118,11 +118,39 @@ def converters_agree(m):
         out['flat-text'] = norm(flat_text_to_flat_json(FlatTextRenderer().render(m))) == flat
     except Exception as e:
         out['flat-text'] = 'err %d' % lib.err_code(e)
+    text = NestedTextRenderer().render(m)
     try:
-        out['nested-text'] = norm(nested_text_to_flat_json(NestedTextRenderer().render(m))) == flat
+        out['nested-text'] = norm(nested_text_to_flat_json(text)) == flat
     except Exception as e:
         out['nested-text'] = 'err %d' % lib.err_code(e)
+    if out['nested-text'] is not True:
+        # D21: lines of elements skipped by 221YYY carry a name but no value.  Remove exactly those
+        # lines (they are str(node) of the no-value element nodes) and convert again.
+        skipped = no_value_element_lines(m)
+        if skipped:
+            kept = [l for l in text.splitlines() if l.strip() not in skipped]
+            try:
+                if norm(nested_text_to_flat_json('\n'.join(kept))) == flat:
+                    out['nested-text-cause'] = 'no-value-element-lines'
+            except Exception:
+                pass
     return out
+
+
+def no_value_element_lines(m):
+    from pybufrkit.templatedata import NoValueDataNode, SequenceNode, FixedReplicationNode, DelayedReplicationNode
+    from pybufrkit.descriptors import ElementDescriptor
+    found = set()
+
+    def walk(nodes):
+        for n in nodes:
+            if isinstance(n, (SequenceNode, FixedReplicationNode, DelayedReplicationNode)):
+                walk(n.members)
+            elif isinstance(n, NoValueDataNode) and isinstance(n.descriptor, ElementDescriptor):
+                found.add(str(n).strip())
+    for nodes in m.template_data.value.decoded_nodes_all_subsets:
+        walk(nodes)
+    return found
 
 
 def model_wire_lines(toks, flat):
@@ -164,10 +192,13 @@ def check_message(ctx, case, toks, b, tag):
                               'hierarchical view does not contain every index once in flat order')
     if res[0] == 'ok':
         agree = converters_agree(m)
+        cause = agree.pop('nested-text-cause', None)
         for fmt, ok in agree.items():
             if ok is not True:
-                ctx.violation({'kind': 'C09-converter-' + fmt, 'case': case, 'result': ok},
-                              '%s: %s does not convert back to the flat JSON (%r)' % (tag, fmt, ok))
+                rec = {'kind': 'C09-converter-' + fmt, 'case': case, 'result': ok}
+                if fmt == 'nested-text' and cause:
+                    rec['cause'] = cause
+                ctx.violation(rec, '%s: %s does not convert back to the flat JSON (%r)' % (tag, fmt, ok))
     else:
         ctx.dist['wire-error-%d' % res[1]] += 1
 
@@ -220,6 +251,7 @@ def run(ctx):
             try:
                 m.wire()
                 agree = converters_agree(m)
+                agree.pop('nested-text-cause', None)
                 for fmt, ok in agree.items():
                     if ok is not True:
                         ctx.violation({'kind': 'C09-converter-' + fmt, 'case': {'file': os.path.basename(f)}, 'result': ok},
